@@ -763,13 +763,18 @@ manage_return_value(ostream &out, int indent_level,
       type->output_instance(out, "refcount", &parser);
       out << " = " << return_expr << ";\n";
 
-      indent(out, indent_level)
-        << "if (" << return_expr << " != nullptr) {\n";
-      indent(out, indent_level + 2)
-        << "(" << return_expr << ")->ref();\n";
-      indent(out, indent_level)
-        << "}\n";
-      output_ref(out, indent_level, remap, "refcount");
+      if (TypeManager::is_pointer_to_base(type)) {
+        // The temporary is a PointerTo, which gives up its own reference
+        // when it goes out of scope; the caller gets one of its own.
+        indent(out, indent_level)
+          << "if (refcount != nullptr) {\n";
+        indent(out, indent_level + 2)
+          << "refcount->ref();\n";
+        indent(out, indent_level)
+          << "}\n";
+      } else {
+        output_ref(out, indent_level, remap, "refcount");
+      }
       return remap->_return_type->temporary_to_return("refcount");
     }
   }
